@@ -6,6 +6,8 @@ import vprim
 
 
 def points_in_polygon(x, y, vx, vy):
+    if vprim.is_selection(x) or vprim.is_selection(y):
+        vprim.unsupported('kernel called on a boolean-mask selection (not modelled)')
     if not (vprim.is_array(x) and vprim.is_array(y) and vprim.is_array(vx) and vprim.is_array(vy)):
         raise TypeError('Argument has incorrect type (expected numpy.ndarray)')
     if x.ndim != 1 or y.ndim != 1 or vx.ndim != 1 or vy.ndim != 1:
